@@ -127,7 +127,7 @@ type Env struct {
 }
 
 func (e *Env) N(quick, thorough int) int {
-	n := quick
+	n := quick * 3 // the quick tier runs three times the counts written at the call sites (still well below a minute per check)
 	if e.Tier == "thorough" {
 		n = thorough
 	}
